@@ -1,2 +1,593 @@
-use crate::Scenario;
-pub fn scenarios() -> Vec<Scenario> { vec![] }
+//! C14: no panics.  Every decoding entry point returns for every byte string; every protocol step that
+//! consumes material from other parties returns for every well-typed input (empty, oversized,
+//! duplicated, mutually inconsistent, cross-session, cross-ciphersuite) while the caller's own secret
+//! state is honestly generated.  Each library call runs under catch_unwind; the verdict only looks at
+//! "returned or panicked", never at the returned value.
+
+use std::collections::BTreeMap;
+use std::panic::{catch_unwind, AssertUnwindSafe};
+
+use frost_core as fc;
+use frost_core::keys::dkg;
+use frost_core::keys::refresh;
+use frost_core::keys::repairable::{self, Delta, Sigma};
+use frost_core::keys::{self, IdentifierList, KeyPackage, PublicKeyPackage, SecretShare, VerifiableSecretSharingCommitment};
+use frost_core::CheaterDetection;
+use serde_json::json;
+
+use crate::common::*;
+use crate::rng::TestRng;
+use crate::{scn, Scenario};
+
+pub fn scenarios() -> Vec<Scenario> {
+    vec![
+        scn!(scenario_decoders_do_not_panic, 2),
+        scn!(scenario_signing_steps_do_not_panic, 2),
+        scn!(scenario_keygen_steps_do_not_panic, 2),
+        scn!(scenario_refresh_and_repair_do_not_panic, 2),
+    ]
+}
+
+/// Runs `f`; a panic becomes a property failure naming the call.
+fn calm<T>(what: &str, f: impl FnOnce() -> T) -> Result<T, Stop> {
+    match catch_unwind(AssertUnwindSafe(f)) {
+        Ok(v) => Ok(v),
+        Err(payload) => {
+            let (msg, loc) = crate::take_last_panic().unwrap_or_else(|| ("<panic>".into(), "<unknown>".into()));
+            if crate::is_harness_location(&loc) {
+                // our own bug: let the engine report it as such
+                std::panic::resume_unwind(payload);
+            }
+            fail(&format!("{what} returns a value or an error"), "no panic", format!("panic at {loc}: {msg}"))
+        }
+    }
+}
+
+fn mutate(rng: &mut TestRng, b: &[u8]) -> Vec<u8> {
+    let mut v = b.to_vec();
+    match rng.below(8) {
+        0 => v.truncate(rng.below(v.len() + 1)),
+        1 => {
+            let extra = rng.range(1, 64);
+            v.extend_from_slice(&rng.bytes(extra))
+        }
+        2 => {
+            for _ in 0..rng.range(1, 4) {
+                if !v.is_empty() {
+                    let i = rng.below(v.len());
+                    if let Some(x) = v.get_mut(i) {
+                        *x = rng.below(256) as u8;
+                    }
+                }
+            }
+        }
+        3 => {
+            // length prefixes / counts blown up
+            if !v.is_empty() {
+                let i = rng.below(v.len().min(64));
+                if let Some(x) = v.get_mut(i) {
+                    *x = 0xff;
+                }
+                if let Some(x) = v.get_mut(i + 1) {
+                    *x = 0xff;
+                }
+                if let Some(x) = v.get_mut(i + 2) {
+                    *x = 0x7f;
+                }
+            }
+        }
+        4 => v = rng.bytes(b.len()),
+        5 => v = Vec::new(),
+        6 => v = vec![0xff; b.len()],
+        _ => {
+            if !v.is_empty() {
+                let i = rng.below(v.len());
+                if let Some(x) = v.get_mut(i) {
+                    *x ^= 1 << rng.below(8);
+                }
+            }
+        }
+    }
+    v
+}
+
+pub fn scenario_decoders_do_not_panic<C: Suite>(rng: &mut TestRng, p: &Params, notes: &mut Notes) -> Verdict {
+    let (keys, _signers, sess) = setup_session::<C>(rng, p)?;
+    let run = dkg_rounds::<C>(rng, &keys.ids.iter().take(3).copied().collect::<Vec<_>>(), keys.ids.len().min(3).max(2) as u16, 2, false).ok();
+    let kp = match keys.key_packages.values().next() {
+        Some(k) => k.clone(),
+        None => return skip("internal"),
+    };
+    let sig = need(fc::aggregate::<C>(&sess.package, &sess.shares, &keys.pubkeys), "aggregate")?;
+    // honest encodings of everything (binary), then hostile variants of them into every decoder
+    let mut encs: Vec<Vec<u8>> = vec![
+        kp.serialize().unwrap_or_default(),
+        keys.pubkeys.serialize().unwrap_or_default(),
+        sess.package.serialize().unwrap_or_default(),
+        sig.serialize().unwrap_or_default(),
+        kp.identifier().serialize(),
+        kp.signing_share().serialize(),
+        vshare_bytes::<C>(kp.verifying_share()),
+    ];
+    if let Some(s) = keys.secret_shares.as_ref().and_then(|m| m.values().next()) {
+        encs.push(s.serialize().unwrap_or_default());
+        encs.push(s.commitment().serialize_whole().unwrap_or_default());
+    }
+    if let Some(n) = sess.nonces.values().next() {
+        encs.push(n.serialize().unwrap_or_default());
+    }
+    if let Some(c) = sess.commitments.values().next() {
+        encs.push(c.serialize().unwrap_or_default());
+    }
+    if let Some(run) = &run {
+        if let Some(x) = run.r1_pkg.values().next() {
+            encs.push(x.serialize().unwrap_or_default());
+        }
+        if let Some(x) = run.r1_secret.values().next() {
+            encs.push(x.serialize().unwrap_or_default());
+        }
+        if let Some(x) = run.r2_secret.values().next() {
+            encs.push(x.serialize().unwrap_or_default());
+        }
+        if let Some(x) = run.r2_out.values().next().and_then(|m| m.values().next()) {
+            encs.push(x.serialize().unwrap_or_default());
+        }
+    }
+    // an encoding of another ciphersuite
+    let sib = fc::SigningPackage::<C::Sibling>::new(BTreeMap::new(), &p.message);
+    encs.push(sib.serialize().unwrap_or_default());
+    let mut count = 0usize;
+    for _ in 0..40 {
+        let base = match encs.get(rng.below(encs.len())) {
+            Some(b) => b.clone(),
+            None => continue,
+        };
+        let input = if rng.chance(10) { base } else { mutate(rng, &base) };
+        let b: &[u8] = &input;
+        count += 1;
+        calm("KeyPackage::deserialize", || KeyPackage::<C>::deserialize(b).is_ok())?;
+        calm("PublicKeyPackage::deserialize", || PublicKeyPackage::<C>::deserialize(b).is_ok())?;
+        calm("SecretShare::deserialize", || SecretShare::<C>::deserialize(b).is_ok())?;
+        calm("SigningPackage::deserialize", || fc::SigningPackage::<C>::deserialize(b).is_ok())?;
+        calm("SigningNonces::deserialize", || fc::round1::SigningNonces::<C>::deserialize(b).is_ok())?;
+        calm("SigningCommitments::deserialize", || fc::round1::SigningCommitments::<C>::deserialize(b).is_ok())?;
+        calm("SignatureShare::deserialize", || fc::round2::SignatureShare::<C>::deserialize(b).is_ok())?;
+        calm("Signature::deserialize", || fc::Signature::<C>::deserialize(b).is_ok())?;
+        calm("Identifier::deserialize", || Id::<C>::deserialize(b).is_ok())?;
+        calm("SigningKey::deserialize", || fc::SigningKey::<C>::deserialize(b).is_ok())?;
+        calm("VerifyingKey::deserialize", || fc::VerifyingKey::<C>::deserialize(b).is_ok())?;
+        calm("SigningShare::deserialize", || keys::SigningShare::<C>::deserialize(b).is_ok())?;
+        calm("VerifyingShare::deserialize", || keys::VerifyingShare::<C>::deserialize(b).is_ok())?;
+        calm("CoefficientCommitment::deserialize", || keys::CoefficientCommitment::<C>::deserialize(b).is_ok())?;
+        calm("VerifiableSecretSharingCommitment::deserialize_whole", || VerifiableSecretSharingCommitment::<C>::deserialize_whole(b).is_ok())?;
+        calm("VerifiableSecretSharingCommitment::deserialize", || {
+            VerifiableSecretSharingCommitment::<C>::deserialize(b.chunks(7).map(|c| c.to_vec()).collect::<Vec<_>>()).is_ok()
+        })?;
+        calm("Nonce::deserialize", || fc::round1::Nonce::<C>::deserialize(b).is_ok())?;
+        calm("NonceCommitment::deserialize", || fc::round1::NonceCommitment::<C>::deserialize(b).is_ok())?;
+        calm("dkg::round1::Package::deserialize", || dkg::round1::Package::<C>::deserialize(b).is_ok())?;
+        calm("dkg::round2::Package::deserialize", || dkg::round2::Package::<C>::deserialize(b).is_ok())?;
+        calm("dkg::round1::SecretPackage::deserialize", || dkg::round1::SecretPackage::<C>::deserialize(b).is_ok())?;
+        calm("dkg::round2::SecretPackage::deserialize", || dkg::round2::SecretPackage::<C>::deserialize(b).is_ok())?;
+        calm("Delta::deserialize", || Delta::<C>::deserialize(b).is_ok())?;
+        calm("Sigma::deserialize", || Sigma::<C>::deserialize(b).is_ok())?;
+        calm("Randomizer::deserialize", || frost_rerandomized::Randomizer::<C>::deserialize(b).is_ok())?;
+        calm("Identifier::derive", || Id::<C>::derive(b).is_ok())?;
+    }
+    // oversized variants of the signature encoding (and of every other honest encoding) into the signature decoder
+    for base in &encs {
+        for extra in [1usize, 2, 32, 64, 1000] {
+            let mut v = base.clone();
+            v.extend_from_slice(&rng.bytes(extra));
+            calm("Signature::deserialize (oversized input)", || fc::Signature::<C>::deserialize(&v).is_ok())?;
+            let text = serde_json::to_string(&hex(&v)).unwrap_or_default();
+            calm("serde_json -> Signature (oversized hex)", || serde_json::from_str::<fc::Signature<C>>(&text).is_ok())?;
+        }
+    }
+    // JSON decoders on structurally hostile documents
+    let docs = [
+        "{}", "[]", "null", "0", "\"\"", "{\"header\":{}}", "{\"header\":{\"version\":0,\"ciphersuite\":\"x\"}}",
+        "{\"header\":{\"version\":-1}}", "{\"header\":{\"version\":256}}", "[[[[[[[[[[]]]]]]]]]]",
+        "{\"signing_commitments\":{\"00\":{}},\"message\":\"zz\"}", "{\"identifier\":\"\",\"signing_share\":\"\"}",
+    ];
+    for d in docs {
+        calm("serde_json -> KeyPackage", || serde_json::from_str::<KeyPackage<C>>(d).is_ok())?;
+        calm("serde_json -> PublicKeyPackage", || serde_json::from_str::<PublicKeyPackage<C>>(d).is_ok())?;
+        calm("serde_json -> SigningPackage", || serde_json::from_str::<fc::SigningPackage<C>>(d).is_ok())?;
+        calm("serde_json -> SecretShare", || serde_json::from_str::<SecretShare<C>>(d).is_ok())?;
+        calm("serde_json -> round1::Package", || serde_json::from_str::<dkg::round1::Package<C>>(d).is_ok())?;
+        calm("serde_json -> Signature", || serde_json::from_str::<fc::Signature<C>>(d).is_ok())?;
+        calm("serde_json -> Identifier", || serde_json::from_str::<Id<C>>(d).is_ok())?;
+    }
+    // honest JSON with one string member replaced by hostile text
+    if let Ok(mut j) = serde_json::to_value(&kp) {
+        for key in ["identifier", "signing_share", "verifying_share", "verifying_key"] {
+            for bad in ["", "0", "zz", "00", &"f".repeat(1000), &"00".repeat(31), &"00".repeat(33)] {
+                let saved = j[key].clone();
+                j[key] = json!(bad);
+                let doc = j.clone();
+                calm("serde_json -> KeyPackage (hostile member)", || serde_json::from_value::<KeyPackage<C>>(doc).is_ok())?;
+                j[key] = saved;
+            }
+        }
+    }
+    notes.insert("hostile_byte_strings".into(), json!(count));
+    Ok(())
+}
+
+pub fn scenario_signing_steps_do_not_panic<C: Suite>(rng: &mut TestRng, p: &Params, notes: &mut Notes) -> Verdict {
+    let (keys, signers, a) = setup_session::<C>(rng, p)?;
+    let b = run_session::<C>(rng, &keys.key_packages, &signers, b"another concurrent session", false)?;
+    let me = match signers.get(rng.below(signers.len())) {
+        Some(i) => *i,
+        None => return skip("internal"),
+    };
+    let (kp, nonces) = match (keys.key_packages.get(&me), a.nonces.get(&me)) {
+        (Some(k), Some(n)) => (k, n),
+        _ => return skip("internal"),
+    };
+    let outsider = need(Id::<C>::derive(b"nobody"), "derive")?;
+    let vk = keys.pubkeys.verifying_key();
+    // hostile signing packages
+    let mut packages: Vec<(&str, fc::SigningPackage<C>)> = vec![
+        ("empty package", fc::SigningPackage::<C>::new(BTreeMap::new(), &p.message)),
+        ("package of a concurrent session", b.package.clone()),
+    ];
+    let mut only_me = BTreeMap::new();
+    if let Some(c) = a.commitments.get(&me) {
+        only_me.insert(me, *c);
+        packages.push(("package with only the signer itself", fc::SigningPackage::<C>::new(only_me.clone(), &p.message)));
+        // the same commitment pair filed under every participant and an outsider
+        let mut dup = BTreeMap::new();
+        for id in keys.ids.iter().chain(std::iter::once(&outsider)) {
+            dup.insert(*id, *c);
+        }
+        packages.push(("one commitment pair duplicated under every identifier", fc::SigningPackage::<C>::new(dup, &p.message)));
+    }
+    let mut without_me = a.commitments.clone();
+    without_me.remove(&me);
+    packages.push(("package without the signer", fc::SigningPackage::<C>::new(without_me, &p.message)));
+    let mut with_outsider = a.commitments.clone();
+    if let Some(c) = b.commitments.values().next() {
+        with_outsider.insert(outsider, *c);
+    }
+    packages.push(("package with an unknown participant", fc::SigningPackage::<C>::new(with_outsider, &p.message)));
+    let huge = rng.bytes(200_000);
+    packages.push(("package with a 200 kB message", fc::SigningPackage::<C>::new(a.commitments.clone(), &huge)));
+    notes.insert("hostile_packages".into(), json!(packages.len()));
+
+    // hostile share maps and public key packages
+    let mut share_maps: Vec<(&str, BTreeMap<Id<C>, fc::round2::SignatureShare<C>>)> = vec![
+        ("no shares", BTreeMap::new()),
+        ("shares of the honest session", a.shares.clone()),
+        ("shares of a concurrent session", b.shares.clone()),
+    ];
+    let mut extra = a.shares.clone();
+    if let Some(s) = a.shares.values().next() {
+        extra.insert(outsider, *s);
+        let mut dup = BTreeMap::new();
+        for id in &keys.ids {
+            dup.insert(*id, *s);
+        }
+        share_maps.push(("one share duplicated under every identifier", dup));
+    }
+    share_maps.push(("a share under an unknown identifier", extra));
+    let empty_pkp = PublicKeyPackage::<C>::new(BTreeMap::new(), *vk, keys.pubkeys.min_signers());
+    let mut pkps: Vec<(&str, PublicKeyPackage<C>)> = vec![
+        ("genuine", keys.pubkeys.clone()),
+        ("no verifying shares", empty_pkp),
+        ("min_signers None", PublicKeyPackage::<C>::new(keys.pubkeys.verifying_shares().clone(), *vk, None)),
+        ("min_signers 0", PublicKeyPackage::<C>::new(keys.pubkeys.verifying_shares().clone(), *vk, Some(0))),
+        ("min_signers 65535", PublicKeyPackage::<C>::new(keys.pubkeys.verifying_shares().clone(), *vk, Some(u16::MAX))),
+    ];
+    // verifying shares that belong to other participants
+    let mut rotated = BTreeMap::new();
+    let vals: Vec<_> = keys.pubkeys.verifying_shares().values().copied().collect();
+    for (k, id) in keys.pubkeys.verifying_shares().keys().enumerate() {
+        if let Some(v) = vals.get((k + 1) % vals.len()) {
+            rotated.insert(*id, *v);
+        }
+    }
+    pkps.push(("verifying shares rotated", PublicKeyPackage::<C>::new(rotated, *vk, keys.pubkeys.min_signers())));
+
+    for (pname, pkg) in &packages {
+        calm(&format!("round2::sign ({pname})"), || fc::round2::sign::<C>(pkg, nonces, kp).is_ok())?;
+        // a key package whose threshold field is extreme (still honest share)
+        for m in [0u16, 1, u16::MAX] {
+            let k2 = KeyPackage::<C>::new(*kp.identifier(), *kp.signing_share(), *kp.verifying_share(), *kp.verifying_key(), m);
+            calm(&format!("round2::sign ({pname}, key package min_signers {m})"), || fc::round2::sign::<C>(pkg, nonces, &k2).is_ok())?;
+        }
+        for (sname, shares) in &share_maps {
+            for (kname, pkp) in &pkps {
+                for mode in [CheaterDetection::Disabled, CheaterDetection::FirstCheater, CheaterDetection::AllCheaters] {
+                    calm(&format!("aggregate_custom ({pname}; {sname}; public key package: {kname})"), || {
+                        fc::aggregate_custom::<C>(pkg, shares, pkp, mode).is_ok()
+                    })?;
+                }
+            }
+        }
+        for id in [me, outsider] {
+            if let (Some(vs), Some(sh)) = (keys.pubkeys.verifying_shares().values().next(), a.shares.values().next()) {
+                calm(&format!("verify_signature_share ({pname})"), || fc::verify_signature_share::<C>(id, vs, sh, pkg, vk).is_ok())?;
+            }
+        }
+    }
+    // rerandomized entry points with hostile seeds
+    for seed in [Vec::new(), vec![0u8; 1], rng.bytes(1000)] {
+        calm("sign_with_randomizer_seed", || frost_rerandomized::sign_with_randomizer_seed::<C>(&a.package, nonces, kp, &seed).is_ok())?;
+        calm("RandomizedParams::regenerate_from_seed_and_commitments (empty commitments)", || {
+            frost_rerandomized::RandomizedParams::<C>::regenerate_from_seed_and_commitments(vk, &seed, &BTreeMap::new()).is_ok()
+        })?;
+    }
+    // batch verification: empty batch and garbage items
+    calm("batch::Verifier::verify (empty)", || fc::batch::Verifier::<C>::new().verify(&mut *rng).is_ok())?;
+    Ok(())
+}
+
+pub fn scenario_keygen_steps_do_not_panic<C: Suite>(rng: &mut TestRng, p: &Params, notes: &mut Notes) -> Verdict {
+    let ids = make_ids::<C>(&p.ids)?;
+    let a = dkg_rounds::<C>(rng, &ids, p.n, p.t, false)?;
+    // a concurrent run with other parameters
+    let (n2, t2) = if p.n > 2 { (p.n - 1, 2) } else { (3, 3) };
+    let ids2: Vec<Id<C>> = if p.n > 2 { ids.iter().take(n2 as usize).copied().collect() } else { make_ids::<C>(&gen_ids(rng, "sparse-ascending", 3))? };
+    let b = dkg_rounds::<C>(rng, &ids2, n2, t2, false)?;
+    let me = match ids.get(rng.below(ids.len())) {
+        Some(i) => *i,
+        None => return skip("internal"),
+    };
+    let outsider = need(Id::<C>::derive(b"nobody"), "derive")?;
+    let (s1, s2) = match (a.r1_secret.get(&me), a.r2_secret.get(&me)) {
+        (Some(x), Some(y)) => (x.clone(), y.clone()),
+        _ => return skip("internal"),
+    };
+    let empty_commitment = need(VerifiableSecretSharingCommitment::<C>::deserialize(Vec::<Vec<u8>>::new()), "empty commitment")?;
+    let any_pkg = match a.r1_pkg.values().next() {
+        Some(x) => x.clone(),
+        None => return skip("internal"),
+    };
+    let long_commitment = {
+        let mut list = any_pkg.commitment().serialize().unwrap_or_default();
+        let first = list.first().cloned().unwrap_or_default();
+        for _ in 0..300 {
+            list.push(first.clone());
+        }
+        need(VerifiableSecretSharingCommitment::<C>::deserialize(list), "long commitment")?
+    };
+    // hostile round-one maps
+    let honest_r1 = a.r1_for(&me);
+    let mut r1_maps: Vec<(&str, BTreeMap<Id<C>, dkg::round1::Package<C>>)> = vec![
+        ("empty", BTreeMap::new()),
+        ("all packages incl. own", a.r1_pkg.clone()),
+        ("packages of a concurrent run with other parameters", b.r1_pkg.clone()),
+    ];
+    let mut dup = BTreeMap::new();
+    for id in honest_r1.keys() {
+        dup.insert(*id, any_pkg.clone());
+    }
+    r1_maps.push(("one package duplicated under every identifier", dup));
+    let mut with_empty = honest_r1.clone();
+    if let Some(k) = honest_r1.keys().next() {
+        with_empty.insert(*k, dkg::round1::Package::new(empty_commitment.clone(), *any_pkg.proof_of_knowledge()));
+    }
+    r1_maps.push(("a package with an empty commitment", with_empty));
+    let mut with_long = honest_r1.clone();
+    if let Some(k) = honest_r1.keys().next() {
+        with_long.insert(*k, dkg::round1::Package::new(long_commitment.clone(), *any_pkg.proof_of_knowledge()));
+    }
+    r1_maps.push(("a package with a 300-coefficient commitment", with_long));
+    let mut with_outsider = honest_r1.clone();
+    if let Some(k) = honest_r1.keys().next().copied() {
+        if let Some(v) = with_outsider.remove(&k) {
+            with_outsider.insert(outsider, v);
+        }
+    }
+    r1_maps.push(("a package filed under an unknown identifier", with_outsider));
+    r1_maps.push(("honest", honest_r1.clone()));
+    // hostile round-two maps
+    let honest_r2 = a.r2_for(&me);
+    let mut r2_maps: Vec<(&str, BTreeMap<Id<C>, dkg::round2::Package<C>>)> = vec![
+        ("empty", BTreeMap::new()),
+        ("honest", honest_r2.clone()),
+        ("shares of a concurrent run", b.r2_out.values().next().cloned().unwrap_or_default()),
+    ];
+    let mut r2_dup = BTreeMap::new();
+    if let Some(v) = honest_r2.values().next() {
+        for id in ids.iter().chain(std::iter::once(&outsider)) {
+            r2_dup.insert(*id, v.clone());
+        }
+    }
+    r2_maps.push(("one share duplicated under every identifier incl. own and unknown", r2_dup));
+    notes.insert("hostile_round1_maps".into(), json!(r1_maps.len()));
+    for (n1, r1) in &r1_maps {
+        calm(&format!("dkg::part2 ({n1})"), || dkg::part2::<C>(s1.clone(), r1).is_ok())?;
+        for (n2, r2) in &r2_maps {
+            calm(&format!("dkg::part3 (round one: {n1}; round two: {n2})"), || dkg::part3::<C>(&s2, r1, r2).is_ok())?;
+        }
+    }
+    // dealer shares from elsewhere
+    let share = make_signing_share::<C>(&random_nonzero_scalar::<C>(rng))?;
+    for (cname, c) in [("empty commitment", &empty_commitment), ("300-coefficient commitment", &long_commitment)] {
+        let s = SecretShare::<C>::new(me, share, c.clone());
+        calm(&format!("SecretShare::verify ({cname})"), || s.verify().is_ok())?;
+        calm(&format!("KeyPackage::try_from ({cname})"), || KeyPackage::<C>::try_from(s.clone()).is_ok())?;
+    }
+    calm("PublicKeyPackage::from_dkg_commitments (empty map)", || PublicKeyPackage::<C>::from_dkg_commitments(&BTreeMap::new()).is_ok())?;
+    let mut m = BTreeMap::new();
+    m.insert(me, &empty_commitment);
+    calm("PublicKeyPackage::from_dkg_commitments (empty commitment)", || PublicKeyPackage::<C>::from_dkg_commitments(&m).is_ok())?;
+    // commitments of different lengths, in both orders (which one is "first" is decided by the identifier order)
+    let short_commitment = {
+        let mut list = any_pkg.commitment().serialize().unwrap_or_default();
+        list.truncate(1);
+        need(VerifiableSecretSharingCommitment::<C>::deserialize(list), "short commitment")?
+    };
+    let (lo, hi) = if me < outsider { (me, outsider) } else { (outsider, me) };
+    for (what, first, second) in [
+        ("longer one first", &long_commitment, any_pkg.commitment()),
+        ("shorter one first", any_pkg.commitment(), &long_commitment),
+        ("one-coefficient commitment second", any_pkg.commitment(), &short_commitment),
+        ("one-coefficient commitment first", &short_commitment, any_pkg.commitment()),
+        ("empty commitment second", any_pkg.commitment(), &empty_commitment),
+    ] {
+        let mut m = BTreeMap::new();
+        m.insert(lo, first);
+        m.insert(hi, second);
+        calm(&format!("PublicKeyPackage::from_dkg_commitments (commitments of different lengths, {what})"), || {
+            PublicKeyPackage::<C>::from_dkg_commitments(&m).is_ok()
+        })?;
+    }
+    // the same through part3: a peer (ran part1 with a lower / higher threshold) whose round-two share is
+    // consistent with its own commitment, so that the per-sender check passes
+    for t_bad in [p.t.saturating_sub(1).max(1), p.t + 1] {
+        if t_bad < 2 || t_bad == p.t {
+            continue;
+        }
+        for peer in ids.iter().filter(|i| **i != me) {
+            let n_bad = p.n.max(t_bad);
+            if let Ok((bad_secret, bad_pkg)) = dkg::part1::<C, _>(*peer, n_bad, t_bad, &mut *rng) {
+                // its share for `me`, from its coefficients (public serde form of its own state)
+                let share = serde_json::to_value(&bad_secret).ok().and_then(|j| {
+                    let x = scalar_from_bytes::<C>(&me.serialize())?;
+                    let mut acc = zero::<C>();
+                    for c in j.get("coefficients")?.as_array()?.iter().rev() {
+                        acc = acc * x + scalar_from_bytes::<C>(&unhex(c.as_str()?)?)?;
+                    }
+                    frost_core::keys::SigningShare::<C>::deserialize(&scalar_bytes::<C>(&acc)).ok()
+                });
+                if let Some(share) = share {
+                    let mut r1 = a.r1_for(&me);
+                    let mut r2 = a.r2_for(&me);
+                    r1.insert(*peer, bad_pkg);
+                    r2.insert(*peer, dkg::round2::Package::new(share));
+                    calm(&format!("dkg::part3 (one peer with a consistent {t_bad}-coefficient contribution)"), || dkg::part3::<C>(&s2, &r1, &r2).is_ok())?;
+                }
+            }
+        }
+    }
+    calm("PublicKeyPackage::from_commitment (no identifiers)", || {
+        PublicKeyPackage::<C>::from_commitment(&Default::default(), &empty_commitment).is_ok()
+    })?;
+    // parameter extremes of the entry points
+    for (n, t) in [(0u16, 0u16), (1, 1), (2, 1), (1, 2), (2, 3), (u16::MAX, 2), (3, u16::MAX), (2, 0)] {
+        calm(&format!("dkg::part1({n},{t})"), || dkg::part1::<C, _>(me, n, t, &mut *rng).is_ok())?;
+        if n < 1000 {
+            calm(&format!("generate_with_dealer({n},{t},Default)"), || keys::generate_with_dealer::<C, _>(n, t, IdentifierList::Default, &mut *rng).is_ok())?;
+        }
+        calm(&format!("generate_with_dealer({n},{t},Custom(ids))"), || keys::generate_with_dealer::<C, _>(n, t, IdentifierList::Custom(&ids), &mut *rng).is_ok())?;
+        calm(&format!("generate_with_dealer({n},{t},Custom([]))"), || keys::generate_with_dealer::<C, _>(n, t, IdentifierList::Custom(&[]), &mut *rng).is_ok())?;
+    }
+    calm("reconstruct (no packages)", || keys::reconstruct::<C>(&[]).is_ok())?;
+    Ok(())
+}
+
+pub fn scenario_refresh_and_repair_do_not_panic<C: Suite>(rng: &mut TestRng, p: &Params, notes: &mut Notes) -> Verdict {
+    let keys = keygen::<C>(rng, p, false)?;
+    let me = match keys.ids.get(rng.below(keys.ids.len())) {
+        Some(i) => *i,
+        None => return skip("internal"),
+    };
+    let kp = match keys.key_packages.get(&me) {
+        Some(k) => k.clone(),
+        None => return skip("internal"),
+    };
+    let vk = *keys.pubkeys.verifying_key();
+    let outsider = need(Id::<C>::derive(b"nobody"), "derive")?;
+    let empty_commitment = need(VerifiableSecretSharingCommitment::<C>::deserialize(Vec::<Vec<u8>>::new()), "empty commitment")?;
+    let pkps: Vec<(&str, PublicKeyPackage<C>)> = vec![
+        ("genuine", keys.pubkeys.clone()),
+        ("no verifying shares", PublicKeyPackage::<C>::new(BTreeMap::new(), vk, Some(p.t))),
+        ("min_signers None", PublicKeyPackage::<C>::new(keys.pubkeys.verifying_shares().clone(), vk, None)),
+        ("min_signers 0", PublicKeyPackage::<C>::new(keys.pubkeys.verifying_shares().clone(), vk, Some(0))),
+        ("min_signers 1", PublicKeyPackage::<C>::new(keys.pubkeys.verifying_shares().clone(), vk, Some(1))),
+        ("min_signers 65535", PublicKeyPackage::<C>::new(keys.pubkeys.verifying_shares().clone(), vk, Some(u16::MAX))),
+    ];
+    let mut dup_ids = keys.ids.clone();
+    dup_ids.extend(keys.ids.iter().copied());
+    let mut with_outsider = keys.ids.clone();
+    with_outsider.push(outsider);
+    let id_lists: Vec<(&str, Vec<Id<C>>)> = vec![
+        ("no identifiers", vec![]),
+        ("one identifier", vec![me]),
+        ("all", keys.ids.clone()),
+        ("all twice", dup_ids),
+        ("with an unknown one", with_outsider),
+    ];
+    notes.insert("combinations".into(), json!(pkps.len() * id_lists.len()));
+    for (pn, pkp) in &pkps {
+        for (ln, list) in &id_lists {
+            calm(&format!("compute_refreshing_shares (package: {pn}; identifiers: {ln})"), || {
+                refresh::compute_refreshing_shares::<C, _>(pkp.clone(), list, &mut *rng).is_ok()
+            })?;
+        }
+        calm(&format!("repair_share_part3 (package: {pn}; no sigmas)"), || repairable::repair_share_part3::<C>(&[], me, pkp).is_ok())?;
+    }
+    // refreshing shares from a hostile dealer
+    let some_share = make_signing_share::<C>(&random_nonzero_scalar::<C>(rng))?;
+    let honest_commitment = keys.secret_shares.as_ref().and_then(|m| m.values().next()).map(|s| s.commitment().clone());
+    let mut commitments = vec![("empty commitment", empty_commitment.clone())];
+    if let Some(c) = honest_commitment {
+        commitments.push(("full-length commitment", c));
+    }
+    for (cn, c) in &commitments {
+        for id in [me, outsider] {
+            let s = SecretShare::<C>::new(id, some_share, c.clone());
+            calm(&format!("refresh_share ({cn})"), || refresh::refresh_share::<C>(s.clone(), &kp).is_ok())?;
+        }
+    }
+    // distributed refresh with hostile packages
+    let n = keys.ids.len() as u16;
+    if let Ok((s1, pk1)) = refresh::refresh_dkg_part1::<C, _>(me, n, p.t, &mut *rng) {
+        let mut maps: Vec<(&str, BTreeMap<Id<C>, dkg::round1::Package<C>>)> = vec![("empty", BTreeMap::new())];
+        let mut dup = BTreeMap::new();
+        for id in keys.ids.iter().filter(|i| **i != me) {
+            dup.insert(*id, pk1.clone());
+        }
+        maps.push(("own package duplicated under every peer", dup.clone()));
+        let mut with_empty = dup.clone();
+        if let Some(k) = dup.keys().next() {
+            with_empty.insert(*k, dkg::round1::Package::new(empty_commitment.clone(), *pk1.proof_of_knowledge()));
+        }
+        maps.push(("a package with an empty commitment", with_empty));
+        // ordinary DKG packages (full-length commitments) fed into the refresh
+        if let Ok(run) = dkg_rounds::<C>(rng, &keys.ids, p.n, p.t, false) {
+            maps.push(("ordinary DKG packages", run.r1_for(&me)));
+        }
+        for (mn, m) in &maps {
+            let r = calm(&format!("refresh_dkg_part2 ({mn})"), || refresh::refresh_dkg_part2::<C>(s1.clone(), m))?;
+            if let Ok((s2, out)) = r {
+                for (rn, r2) in [("empty", BTreeMap::new()), ("own outgoing shares", out.clone())] {
+                    calm(&format!("refresh_dkg_shares (round one: {mn}; round two: {rn})"), || {
+                        refresh::refresh_dkg_shares::<C>(&s2, m, &r2, keys.pubkeys.clone(), kp.clone()).is_ok()
+                    })?;
+                    calm(&format!("refresh_dkg_shares (round one: {mn}; round two: {rn}; empty public key package)"), || {
+                        refresh::refresh_dkg_shares::<C>(&s2, m, &r2, PublicKeyPackage::<C>::new(BTreeMap::new(), vk, None), kp.clone()).is_ok()
+                    })?;
+                }
+            }
+        }
+    }
+    for (n, t) in [(0u16, 0u16), (1, 1), (2, 1), (1, 2), (2, 3), (u16::MAX, 2), (3, u16::MAX)] {
+        calm(&format!("refresh_dkg_part1({n},{t})"), || refresh::refresh_dkg_part1::<C, _>(me, n, t, &mut *rng).is_ok())?;
+    }
+    // repair with hostile helper lists and values
+    let helper_lists: Vec<(&str, Vec<Id<C>>)> = vec![
+        ("no helpers", vec![]),
+        ("only the caller", vec![me]),
+        ("caller many times", vec![me; 20]),
+        ("only unknown helpers", vec![outsider; (p.t as usize).max(2)]),
+        ("everybody twice", keys.ids.iter().chain(keys.ids.iter()).copied().collect()),
+    ];
+    for (hn, h) in &helper_lists {
+        for target in [me, outsider] {
+            calm(&format!("repair_share_part1 ({hn})"), || repairable::repair_share_part1::<C, _>(h, &kp, &mut *rng, target).is_ok())?;
+        }
+    }
+    calm("repair_share_part2 (no deltas)", || repairable::repair_share_part2::<C>(&[]).serialize())?;
+    // key packages with extreme threshold fields
+    for m in [0u16, 1, u16::MAX] {
+        let k2 = KeyPackage::<C>::new(me, *kp.signing_share(), *kp.verifying_share(), vk, m);
+        calm(&format!("repair_share_part1 (key package min_signers {m})"), || repairable::repair_share_part1::<C, _>(&keys.ids, &k2, &mut *rng, outsider).is_ok())?;
+        calm(&format!("reconstruct (key package min_signers {m})"), || keys::reconstruct::<C>(&[k2.clone(), k2.clone()]).is_ok())?;
+    }
+    Ok(())
+}
